@@ -93,6 +93,8 @@ def parseSnap (s : String) : Option Snap :=
   | _ => none
 
 def schedJudge (f : List String) (out : String) : String :=
+  if out.startsWith "rule-applied-" then
+    "bad:rule-reapplied:a request that lost its slot and selected again was forwarded with a header_upstream + rule applied more than once (C04)" else
   match parseCase f, (out.splitOn ";").mapM parseSnap with
   | some c, some snaps => verdict c.cfg c.ex snaps
   | _, _ => "bad:unparsable:" ++ out
